@@ -5,6 +5,8 @@ Monitors:
           (os.scandir, never following links; include = basename globs; excluded directory = any path component
           matching a directory pattern; .flowmarkignore rules evaluated by git itself in a scratch mirror; size limit;
           explicit-file rules), and the result is absolute, sorted and duplicate-free
+  cli     for a third of the cases the settings are written to a flowmark.toml and the arguments go through
+          `flowmark --list-files` (cli.main): the listing equals the reference as well
   order   the result is the same for every permutation of the arguments and for a shuffled directory listing
           order (os.scandir / os.listdir wrapped in the harness; perturbed listings are counted)
 """
@@ -196,7 +198,7 @@ class C17(Prop):
     assumptions = ["gitignore support is switched off here (C18 judges it); .flowmarkignore rules are judged with git as the reference "
                    "matcher for gitignore syntax",
                    "include patterns are basename globs (fnmatch, case-sensitive); directory patterns are names ending in '/'"]
-    deciding = {"exact": {"quick": 400, "thorough": 4000}, "order": {"quick": 400, "thorough": 4000}}
+    deciding = {"exact": {"quick": 400, "thorough": 4000}, "order": {"quick": 400, "thorough": 4000}, "cli": {"quick": 100, "thorough": 1000}}
     soft_timeout = 120.0
 
     def cases(self, tier, seed, shard, nshards):
@@ -293,6 +295,8 @@ class C17(Prop):
                     col.violation("exact", f"C17/{'listed-but-unwanted' if extra else 'wanted-but-missing'}/{why}", case,
                                   {"args": args, "settings": settings, "flowmarkignore": {os.path.relpath(d, root): v for d, v in ignore_files.items()},
                                    "extra": [os.path.relpath(p, root) for p in extra[:4]], "missing": [os.path.relpath(p, root) for p in missing[:4]]})
+                if case["seed"] % 3 == 0 and not isinstance(got, fm.Raised):
+                    self.cli_route(root, settings, args, want, case, col)
                 # order independence: argument permutations and directory listing order
                 perms = list(itertools.permutations(args))
                 r.shuffle(perms)
@@ -320,6 +324,42 @@ class C17(Prop):
                             "args": args, "result": [os.path.relpath(p, root) for p in want][:8]})
         finally:
             shutil.rmtree(base, ignore_errors=True)
+
+    def cli_route(self, root, settings, args, want, case, col):
+        """The same settings written to a flowmark.toml and the same arguments through `flowmark --list-files`: the
+        listing must be the reference result too (a setting such as files-max-size = 0 or exclude = [] must survive the
+        way from the file to the resolver)."""
+        import contextlib
+        import io
+
+        from flowmark import cli
+
+        def tv(v):
+            return ("true" if v else "false") if isinstance(v, bool) else (str(v) if isinstance(v, int) else "[" + ", ".join('"' + x + '"' for x in v) + "]")
+        keys = {"extend_include": "extend-include", "exclude": "exclude", "extend_exclude": "extend-exclude", "files_max_size": "files-max-size",
+                "force_exclude": "force-exclude", "respect_gitignore": "respect-gitignore"}
+        with open(os.path.join(root, "flowmark.toml"), "w") as f:
+            f.write("".join(f"{keys[k]} = {tv(v)}\n" for k, v in settings.items() if k in keys and v is not None))
+        out = io.StringIO()
+        try:
+            with contextlib.redirect_stdout(out), contextlib.redirect_stderr(io.StringIO()):
+                try:
+                    rc = cli.main(["--list-files"] + list(args))
+                except SystemExit as e:
+                    rc = e.code
+        finally:
+            os.remove(os.path.join(root, "flowmark.toml"))
+        col.case()
+        col.mon("cli")
+        if rc != 0:
+            col.count("cli_nonzero_exit")
+            return
+        gotl = sorted(os.path.realpath(x) for x in out.getvalue().split("\n") if x)
+        if gotl != want:
+            extra, missing = sorted(set(gotl) - set(want)), sorted(set(want) - set(gotl))
+            col.violation("cli", "C17/cli-with-config-file-differs-from-reference", case,
+                          {"settings": settings, "args": args, "extra": [os.path.relpath(p, root) for p in extra[:4]],
+                           "missing": [os.path.relpath(p, root) for p in missing[:4]]})
 
     def shuffled_listing(self, r, col):
         """Perturb the order in which the file system lists entries; returns the undo function."""
